@@ -246,6 +246,10 @@ def configs(tier):
     # assembly (its own power / estimated outlet temperature) - the contract C06 proves on _setup_asm_axial_mesh_req
     from . import c06
     out += [c for c in c06.configs(tier) if c[0] is c06.mesh_req_independent]
+    # ... and each assembly's requirement is the smallest of its regions' limits, every region asked at the inlet AND
+    # the estimated outlet temperature (C04's contract on assembly.calculate_min_dz, shared)
+    from . import c04
+    out += [(c04.aggregate, dict())]
     if tier == 'thorough':
         out += [(loop_body, dict(n_bounds=4, req='user')), (loop_body, dict(n_bounds=5, req='grid'))]
     return out
